@@ -456,7 +456,7 @@ func parentMain() int {
 			chunk = 400
 		}
 	}
-	perRun := time.Duration(envInt("VERIF_RUN_TIMEOUT_S", 60)) * time.Second
+	perRun := time.Duration(envInt("VERIF_RUN_TIMEOUT_S", 180)) * time.Second
 	startWall := time.Now()
 	a := newAgg()
 	type job struct{ start, count int }
@@ -469,7 +469,7 @@ func parentMain() int {
 			for j := range jobs {
 				s, n := j.start, j.count
 				for n > 0 {
-					per := 2 * time.Second
+					per := 6 * time.Second
 					if prop.SlowCase > per {
 						per = prop.SlowCase
 					}
